@@ -25,6 +25,7 @@ type c17Case struct {
 	Name  string           `json:"name"`
 	Kind  string           `json:"kind"` // storm | c06 | c10 | c11 | locator
 	AST   *gen.Block       `json:"ast,omitempty"`
+	Width int              `json:"width,omitempty"` // conditions: number of parallel branches (0 = 8)
 	Vars  map[string]int64 `json:"vars,omitempty"`
 	Fam   string           `json:"fam,omitempty"`
 	Sub   json.RawMessage  `json:"sub,omitempty"` // descriptor of the borrowed workload
@@ -112,6 +113,12 @@ func c17Cases(tier string, seed uint64) []fw.Case {
 	}
 	for i := 0; i < 8; i++ {
 		cc := c17Case{Kind: "conditions", Procs: []int{4, 16}[i%2], Reps: reps * 2, Name: fmt.Sprintf("conditions/%d", i)}
+		cs = append(cs, fw.MkCase("conditions", &cc))
+	}
+	// the same with 96 branches: one process that has seen several hundred distinct condition texts (whatever the
+	// expression engines keep per text has grown, been trimmed or been rebuilt) and goes on compiling concurrently
+	for i := 0; i < 2; i++ {
+		cc := c17Case{Kind: "conditions", Width: 96, Procs: []int{16, 4}[i%2], Reps: reps * 2, Name: fmt.Sprintf("conditions-many/%d", i)}
 		cs = append(cs, fw.MkCase("conditions", &cc))
 	}
 	return fw.Number(cs)
@@ -327,13 +334,13 @@ func c17Objects(env *fw.Env, v *fw.V) {
 }
 
 // many tokens evaluating (distinct, never seen before) conditions at the same time
-func c17Conditions(env *fw.Env, v *fw.V, rep int, name string) {
+func c17Conditions(env *fw.Env, v *fw.V, rep int, name string, width int) {
 	g := gen.NewGraph("c17c")
 	s := g.Add(gen.Start, "start", "")
 	f := g.Add(gen.And, "fork", "")
 	g.Connect(s, f, nil)
 	vars := map[string]any{}
-	for i := 1; i <= 8; i++ {
+	for i := 1; i <= width; i++ {
 		t := g.Add(gen.Task, fmt.Sprintf("w%d", i), "")
 		x := g.Add(gen.Xor, fmt.Sprintf("x%d", i), "")
 		ea := g.Add(gen.End, fmt.Sprintf("ea%d", i), "")
@@ -341,7 +348,7 @@ func c17Conditions(env *fw.Env, v *fw.V, rep int, name string) {
 		g.Connect(f, t, nil)
 		g.Connect(t, x, nil)
 		// a constant that differs per branch, repetition and case: every condition text is new
-		k := int64(rep*1000 + i*10 + len(name))
+		k := int64(rep*100000 + i*100 + len(name))
 		vn := fmt.Sprintf("q%d", i)
 		vars[vn] = int(k) + 1
 		lang := ""
@@ -387,7 +394,7 @@ func c17Conditions(env *fw.Env, v *fw.V, rep int, name string) {
 		v.Inconclusive("watchdog", "no quiescent point")
 		return
 	}
-	for i := 1; i <= 8; i++ {
+	for i := 1; i <= width; i++ {
 		if n := in.Count("CompletionEnd", fmt.Sprintf("ea%d", i)); n != 1 {
 			v.Violate("outcome-wrong-branch", "conditions", "branch %d: end event of the true condition reached %d times", i, n)
 		}
@@ -395,7 +402,7 @@ func c17Conditions(env *fw.Env, v *fw.V, rep int, name string) {
 	if n := in.Count("CeaseFlow", ""); n != 1 {
 		v.Violate("outcome-not-complete", "conditions", "%d cease-flow traces", n)
 	}
-	v.Add("condition-evaluations", 8)
+	v.Add("condition-evaluations", width)
 }
 
 func c17Run(c *c17Case, env *fw.Env, v *fw.V) {
@@ -471,7 +478,11 @@ func c17Run(c *c17Case, env *fw.Env, v *fw.V) {
 		case "objects":
 			fw.Rep(env, i, func(env *fw.Env) { c17Objects(env, v) })
 		case "conditions":
-			fw.Rep(env, i, func(env *fw.Env) { c17Conditions(env, v, i, c.Name) })
+			w := c.Width
+			if w == 0 {
+				w = 8
+			}
+			fw.Rep(env, i, func(env *fw.Env) { c17Conditions(env, v, i, c.Name, w) })
 		}
 		v.Add("runs", 1)
 		if v.Violated() {
